@@ -149,7 +149,7 @@ func (s *Spec) expand(el *Node, ctxReq bool, depth int) ([]Member, error) {
 			if err != nil {
 				return nil, err
 			}
-			out = append(out, Member{Name: f.Name, Tag: f.Tag, Type: f.Type, Required: req && ctxReq, IsGroup: true, Kids: kids})
+			out = append(out, Member{Name: f.Name, Tag: f.Tag, Type: f.Type, Enums: f.Enums, Required: req && ctxReq, IsGroup: true, Kids: kids})
 		case "component":
 			comp := s.Comps[c.Attr("name")]
 			if comp == nil {
